@@ -192,6 +192,18 @@ impl CroppedRegion {
         let line = location.line as usize;
         self.start_line <= line && line <= self.end_line
     }
+
+    /// Like [`covers`](Self::covers), but without the empty "line" counted after a final line
+    /// break: in a window cut out of the middle of a document that line is the next real one,
+    /// whose text this window does not hold.
+    fn covers_text_of(&self, location: &Location) -> bool {
+        let last = if self.text.ends_with('\n') {
+            self.end_line.saturating_sub(1)
+        } else {
+            self.end_line
+        };
+        self.covers(location) && (location.line as usize) <= last
+    }
 }
 
 fn line_count_including_trailing_empty_line(text: &str) -> usize {
@@ -1513,7 +1525,8 @@ fn pick_cropped_region<'a>(
 ) -> Option<&'a CroppedRegion> {
     regions
         .iter()
-        .find(|r| r.covers(location))
+        .find(|r| r.covers_text_of(location))
+        .or_else(|| regions.iter().find(|r| r.covers(location)))
         .or_else(|| regions.first())
 }
 
